@@ -214,4 +214,136 @@ theorem definition_link {β : Type} (obs : DecProg.Out → β) (hobs : EofBlind 
           simp only [Pure.pure] at h
           exact finish s2 st2 b0 b1 mesgNum (DecProg.triplets fb) [] hq2 hs02 hcd2 h
 
+theorem Tables.of_quiet {s s' : St} {st st' : DecProg.St} (h : Tables s st) (hq : Quiet' s s') (hs : Same st st') : Tables s' st' :=
+  ⟨by rw [hs.defs, h.defs, hq.look], by rw [hs.descs, h.descs, hq.look]⟩
+
+open Fit.ReadBuffer in
+/-- **one record** -/
+theorem message_link {β : Type} (obs : DecProg.Out → β) (hobs : EofBlind obs) (o : Opts) (chk : Bool)
+    (s : St) (st : DecProg.St) (k : DecProg.St → DecProg.P) (R : β) (done : List (Out × List Event)) (pend : List Event)
+    (hcd : CD chk s st) (hT : Tables s st) (hF : Follows o s st done pend) (hi : Inv s)
+    (hbt : facBtOK s.o.fac = true) (hfd : facFdOK s.o.fac = true)
+    (h : match decodeMessage s with
+      | .ok (s', ev) => ∀ st', CD chk s' st' → Tables s' st' → Follows o s' st' done (pend ++ ev.toList) →
+          obs (runExact (k st') s'.rest) = R
+      | .err e => R = obs (DecProg.fail st (errD e))
+      | .panic => True
+      | .hang => True) :
+    obs (runExact (DecProg.message chk st k) s.rest) = R := by
+  unfold DecProg.message
+  unfold decodeMessage at h
+  simp only [Bind.bind, Res.bind] at h
+  apply rdN_link obs hobs chk 1 s st _ R hcd (by decide)
+  cases hr1 : readN 1 s with
+  | err e => rw [hr1] at h; exact h
+  | panic => trivial
+  | hang => trivial
+  | ok p1 =>
+    obtain ⟨b, s1⟩ := p1
+    rw [hr1] at h
+    simp only at h ⊢
+    intro st1 hs1 hcd1 hs1e hbe hl1
+    obtain ⟨x, hx⟩ : ∃ x, b = [x] := by
+      have : b.length = 1 := by rw [hbe]; simp; omega
+      match b, this with
+      | [x], _ => exact ⟨x, rfl⟩
+    subst hx
+    have ex : idx [x] 0 = DecApi.Res.ok x := rfl
+    simp only [ex] at h
+    generalize hy : ([x] : List Nat).headD 0 = y
+    have hyx : y = x := by rw [← hy]; rfl
+    subst hyx
+    have hq1 : Quiet' s s1 := by rw [hs1e]; exact Quiet'.adv s 1
+    have hi1 : Inv s1 := by
+      have := readN_sat 1 s (by decide) hi
+      rw [hr1] at this
+      exact this.2.2.1
+    have hT1 := hT.of_quiet hq1 hs1
+    have hF1 := hF.of_quiet hq1 hs1.evs
+    have hmask : (y &&& (Fit.Gen.Integ.mesgCompressedHeaderMask ||| Fit.Gen.Integ.mesgDefinitionMask) = Fit.Gen.Integ.mesgDefinitionMask) ↔
+        (y &&& (mesgCompressedHeaderMask ||| mesgDefinitionMask) = mesgDefinitionMask) := Iff.rfl
+    by_cases hm : y &&& (mesgCompressedHeaderMask ||| mesgDefinitionMask) = mesgDefinitionMask
+    · rw [if_pos (hmask.mpr hm)]
+      rw [if_pos hm] at h
+      apply definition_link obs hobs o chk y s1 st1 k R done pend hcd1 hT1 hF1
+      cases hd : decodeDefinition y s1 with
+      | err e => rw [hd] at h; simp only at h ⊢; rw [h]; exact congrArg obs (fail_evs _ hs1.evs).symm
+      | panic => trivial
+      | hang => trivial
+      | ok p => obtain ⟨s2, ev⟩ := p; rw [hd] at h; exact h
+    · rw [if_neg (fun hh => hm (hmask.mp hh))]
+      rw [if_neg hm] at h
+      apply data_link obs hobs o chk y s1 st1 k R done pend hcd1 hT1 hF1 hi1 (by rw [hq1.o]; exact hbt) (by rw [hq1.o]; exact hfd)
+      cases hd : decodeData y s1 with
+      | err e => rw [hd] at h; simp only at h ⊢; rw [h]; exact congrArg obs (fail_evs _ hs1.evs).symm
+      | panic => trivial
+      | hang => trivial
+      | ok p => obtain ⟨s2, ev⟩ := p; rw [hd] at h; exact h
+
+theorem reads_sum {s s' : St} (h : Reads s s') (hs : s.q.cur + s.rest.length < 4294967296) :
+    s'.q.cur + s'.rest.length = s.q.cur + s.rest.length := by
+  obtain ⟨c, r1, r2, _⟩ := h
+  rw [r1, List.length_append] at hs ⊢
+  rw [r2, Nat.mod_eq_of_lt (by omega)]; omega
+
+open Fit.ReadBuffer in
+/-- **the record loop** (`decodeMessages`): (D) runs with fuel `fuelD` (enough: every record advances the byte counter), (C)
+with `fuelC` (enough: every record consumes at least a byte) -/
+theorem messages_link {β : Type} (obs : DecProg.Out → β) (hobs : EofBlind obs) (o : Opts) (chk : Bool) (ds : Nat)
+    (k : DecProg.St → DecProg.P) (R : β) (done : List (Out × List Event)) :
+    ∀ (fuelC fuelD : Nat) (s : St) (st : DecProg.St) (pend : List Event),
+    CD chk s st → Tables s st → Follows o s st done pend → Inv s → facBtOK s.o.fac = true → facFdOK s.o.fac = true →
+    s.q.hdr.dataSize = ds → ds ≤ st.cur + fuelD → s.rest.length < fuelC →
+    (match decodeMessages fuelC s with
+      | (sf, evs, .ok ()) => ∀ st', CD chk sf st' → Tables sf st' → Follows o sf st' done (pend ++ evs) →
+          obs (runExact (k st') sf.rest) = R
+      | (sf, evs, .err e) => ∀ st', Follows o sf st' done (pend ++ evs) → R = obs (DecProg.fail st' (errD e))
+      | (_, _, .panic) => True
+      | (_, _, .hang) => True) →
+    obs (runExact (DecProg.messages chk ds fuelD st k) s.rest) = R := by
+  intro fuelC
+  induction fuelC with
+  | zero => intro fuelD s st pend _ _ _ _ _ _ _ _ hf; omega
+  | succ fuelC ih =>
+    intro fuelD s st pend hcd hT hF hi hbt hfd hds hfD hfC h
+    unfold decodeMessages at h
+    by_cases hlt : s.q.cur < s.q.hdr.dataSize
+    · simp only [hlt, if_true] at h
+      obtain ⟨fuelD', rfl⟩ : ∃ f, fuelD = f + 1 := ⟨fuelD - 1, by have := hcd.cur; omega⟩
+      unfold DecProg.messages
+      have hltD : st.cur < ds := by rw [hcd.cur, ← hds]; exact hlt
+      simp only [hltD, if_true]
+      apply message_link obs hobs o chk s st _ R done pend hcd hT hF hi hbt hfd
+      have hsat := decodeMessage_sat s hi
+      cases hm : decodeMessage s with
+      | err e =>
+        rw [hm] at h
+        simp only [loopFail] at h ⊢
+        exact h st (by simpa using hF)
+      | panic => trivial
+      | hang => trivial
+      | ok p =>
+        obtain ⟨s', ev⟩ := p
+        rw [hm] at h hsat
+        obtain ⟨⟨hi', hr'⟩, hlen'⟩ := hsat
+        simp only at hi' hr' hlen' h ⊢
+        intro st' hcd' hT' hF'
+        have hsum := reads_sum hr' hcd.small
+        apply ih fuelD' s' st' (pend ++ ev.toList) hcd' hT' hF' hi' (by rw [hr'.o]; exact hbt) (by rw [hr'.o]; exact hfd)
+          (by rw [hr'.hdr]; exact hds) (by have := hcd'.cur; have := hcd.cur; omega) (by omega)
+        rcases hdm : decodeMessages fuelC s' with ⟨sf, evs, r⟩
+        rw [hdm] at h
+        simp only at h ⊢
+        cases r with
+        | ok u => cases u; simp only at h ⊢; intro st2 h1 h2 h3; exact h st2 h1 h2 (by simpa [List.append_assoc] using h3)
+        | err e => simp only at h ⊢; intro st2 h3; exact h st2 (by simpa [List.append_assoc] using h3)
+        | panic => trivial
+        | hang => trivial
+    · simp only [hlt, if_false] at h
+      have hnD : ¬ st.cur < ds := by rw [hcd.cur, ← hds]; exact hlt
+      have := h st hcd hT (by simpa using hF)
+      cases fuelD with
+      | zero => simpa [DecProg.messages] using this
+      | succ f => simpa [DecProg.messages, hnD] using this
+
 end Fit.Link
